@@ -238,7 +238,7 @@ pub fn operation(p: &mut Parser<'_>, mut skip: Skip) -> Result<Option<Skip>> {
         p.close_at(&last, OPERATION)?;
     }
 
-    return Ok(Some(skip));
+    return Ok(Some(p.count_skip()));
 
     fn operand(
         p: &mut Parser<'_>,
